@@ -15,7 +15,9 @@
 //!         (401 without REALM / without NONCE, 438 n times, ERROR-CODE of 0..3 bytes, 300, 700); 5 n responses with a
 //!         foreign transaction id, then the genuine one; 6 no answer at all; 7 random bytes; 8 n empty frames / empty
 //!         datagrams; 9 success with odd contents (no relayed address, IPv6 / family 0 / short relayed address,
-//!         LIFETIME 0 / u32::MAX / 1-byte); 10 a truncated genuine answer (every length by seed)
+//!         LIFETIME 0 / u32::MAX / 1-byte); 10 a truncated genuine answer (every length by seed); 11 a drip: for 120 virtual s
+//!         one well-formed response with a foreign transaction id every 400 ms / 2.5 s (each inside the client's receive
+//!         timeout) and never the genuine answer
 //!   end   0 keep serving, 1 (TCP) FIN after the hostile output, 2 (TCP) the server closes the socket (later bytes are reset)
 //! Oracles: C07.panic (panic hook), C07.hang (the offer/answer exchange - which waits for gathering - must return within
 //! 90 virtual s; CPU budget as in hostile), C07.alloc (any single allocation request above 64 x hostile bytes + 64 KiB),
@@ -31,7 +33,7 @@ use std::sync::{Arc, Mutex};
 use std::time::Duration;
 use tokio::io::{AsyncReadExt, AsyncWriteExt};
 
-const SHAPES: i64 = 11;
+const SHAPES: i64 = 12;
 const COOKIE: [u8; 4] = [0x21, 0x12, 0xA4, 0x42];
 
 pub fn budget(_prop: &str, tier: Tier) -> u64 {
@@ -135,11 +137,14 @@ pub(crate) fn parse(d: &[u8]) -> Option<Req> {
 enum Out {
     Msg(Vec<u8>),
     Raw(Vec<u8>),
+    /// the server waits that many virtual ms before its next output
+    Pause(u64),
 }
 impl Out {
     fn len(&self) -> usize {
         match self {
             Out::Msg(v) | Out::Raw(v) => v.len(),
+            Out::Pause(_) => 0,
         }
     }
 }
@@ -235,6 +240,15 @@ fn hostile(a: &Attack, req: Option<&Req>, stage_now: i64, bound: Option<u16>, pe
         6 => vec![],
         7 => vec![Out::Msg(rnd(1 + (a.seed % 1400) as usize))],
         8 => (0..n).map(|_| Out::Msg(Vec::new())).collect(),
+        11 => {
+            let gap = if a.seed % 2 == 0 { 400 } else { 2500 };
+            let mut v = Vec::new();
+            for _ in 0..(120_000 / gap) {
+                v.push(Out::Msg(stun(rty, &rnd(12).try_into().unwrap(), &[(0x0016, xor_addr(RELAYED.parse().unwrap()))])));
+                v.push(Out::Pause(gap));
+            }
+            v
+        }
         9 => {
             let rel = match a.seed % 5 {
                 0 => None,
@@ -355,7 +369,13 @@ async fn serve_udp(ctx: &Ctx, sock: Arc<vh::UdpSocket>, script: Arc<Mutex<Script
         let Ok((n, from)) = sock.recv_from(&mut buf).await else { break };
         let outs = script.lock().unwrap().on_request(ctx, &buf[..n]);
         for o in outs {
-            let (Out::Msg(v) | Out::Raw(v)) = o;
+            let v = match o {
+                Out::Msg(v) | Out::Raw(v) => v,
+                Out::Pause(ms) => {
+                    tokio::time::sleep(Duration::from_millis(ms)).await;
+                    continue;
+                }
+            };
             // a datagram cannot exceed 65507 bytes
             let _ = sock.send_to(&v[..v.len().min(65_507)], from).await;
         }
@@ -391,6 +411,10 @@ async fn serve_tcp(ctx: &Ctx, l: Arc<crate::net::tcp::SimTcpL>, script: Arc<Mute
                         f
                     }
                     Out::Raw(v) => v,
+                    Out::Pause(ms) => {
+                        tokio::time::sleep(Duration::from_millis(ms)).await;
+                        continue;
+                    }
                 };
                 if s.write_all(&bytes).await.is_err() {
                     failed = true;
